@@ -94,9 +94,9 @@ class FuncInfo:
         while stack:
             n = stack.pop()
             yield n
+            if isinstance(n, (ast.FunctionDef, ast.Lambda, ast.ClassDef)):
+                continue        # a nested definition is a node of this function, its body is not
             for c in ast.iter_child_nodes(n):
-                if isinstance(c, (ast.FunctionDef, ast.Lambda, ast.ClassDef)):
-                    continue
                 stack.append(c)
 
 
